@@ -151,7 +151,8 @@ def norm(r):
     if r is EC.INFINITY:
         return None
     if isinstance(r, (EC.PointJacobi, EC.Point)):
-        return (int(r.x()), int(r.y()))
+        p = int(r.curve().p())  # a point is compared as a group element: coordinates reduced mod p (-P is stored with y = -Y)
+        return (int(r.x()) % p, int(r.y()) % p)
     if isinstance(r, (bytes, bytearray)):
         return bytes(r)
     if isinstance(r, bool) or r is None:
@@ -517,10 +518,12 @@ def combos(tier, curve, level):
         cross("vkpre", pre_a, pre_b)
     elif level == "quick":
         # long A operations (hundreds of events) meet the four most discriminating B; short ones meet every B
-        cross("gen", gen_a, [gen_b[0], gen_b[3], gen_b[5], gen_b[8]])
+        cross("gen", gen_a[:3], [gen_b[0], gen_b[3], gen_b[5], gen_b[8]])
+        cross("gen", gen_a[3:], [gen_b[0], gen_b[5]])
         cross("pub", [a for a in pub_a if a[0] in long_a], [pub_b[0], pub_b[1], pub_b[3], pub_b[4]])
         cross("pub", [a for a in pub_a if a[0] not in long_a], pub_b)
-        cross("vkpre", pre_a, [pre_b[0], pre_b[2], pre_b[3]])
+        cross("vkpre", pre_a[:1], [pre_b[0], pre_b[2], pre_b[3]])
+        cross("vkpre", pre_a[1:], [pre_b[1]])
     else:  # core
         cross("gen", [gen_a[0], gen_a[2]], [gen_b[0], gen_b[5]])
         cross("pub", [pub_a[0], pub_a[1]], [pub_b[0], pub_b[1], pub_b[3], pub_b[4], pub_b[7]])
